@@ -432,9 +432,38 @@ func ruleCacheKey(r *Run) {
 func ruleCacheStoresSuccess(r *Run, plan *ssa.Function, inner []*ssa.Call) {
 	const rule = "R10a"
 	n := 0
+	// storesCache: fn (or a module function it calls statically) writes an entry of the cache
+	var storesCache func(fn *ssa.Function, depth int) bool
+	storesCache = func(fn *ssa.Function, depth int) bool {
+		if depth > 2 {
+			return false
+		}
+		for _, ins := range allInstrs(fn) {
+			if mu, ok := ins.(*ssa.MapUpdate); ok && isCacheMap(mu.Map) {
+				return true
+			}
+		}
+		for _, e := range r.P.CG.Out[fn] {
+			if e.Kind == "static" && e.Callee != fn && storesCache(e.Callee, depth+1) {
+				return true
+			}
+		}
+		return false
+	}
 	for _, ins := range allInstrs(plan) {
-		mu, ok := ins.(*ssa.MapUpdate)
-		if !ok || !isCacheMap(mu.Map) {
+		// the store itself, or the call of a helper that makes it (`cp.store(hk, res)`)
+		var mu ssa.Instruction
+		switch x := ins.(type) {
+		case *ssa.MapUpdate:
+			if isCacheMap(x.Map) {
+				mu = x
+			}
+		case *ssa.Call:
+			if sc := x.Call.StaticCallee(); sc != nil && !x.Call.IsInvoke() && inModule(sc) && storesCache(r.P.declared(sc), 0) {
+				mu = x
+			}
+		}
+		if mu == nil {
 			continue
 		}
 		n++
@@ -773,6 +802,15 @@ func astWrites(r *Run, onlyPkg string) {
 	var fns []*ssa.Function
 	fns = append(fns, r.P.Funcs...)
 	sort.Slice(fns, func(i, j int) bool { return fnName(fns[i]) < fnName(fns[j]) })
+	// map entries (see below) are judged on the request path only: start-up code builds the
+	// schemas it later publishes, helper functions included
+	var reqRoots []*ssa.Function
+	for _, nm := range []string{"pebbles.(*Gateway).Handler", "pebbles.(*Gateway).queryHandler", "pebbles.(*Gateway).subscriptionHandler", "pebbles.(*subscriptionEntry).Listen", "planner.(SequentialPlanner).Plan", "planner.(*CachedPlanner).Plan", "executor.(*DepthExecutorManager).Execute", "executor.(ParallelExecutor).Execute"} {
+		if f := r.P.Fn(nm); f != nil {
+			reqRoots = append(reqRoots, f)
+		}
+	}
+	onRequestPath := r.P.CG.Reachable(reqRoots, nil)
 	for _, fn := range fns {
 		// out-of-scope packages are walked silently so that table credits are consumed
 		r.silent = onlyPkg != "" && (topFn(fn).Pkg == nil || shortPkg(topFn(fn).Pkg.Pkg.Path()) != onlyPkg)
@@ -813,6 +851,9 @@ func astWrites(r *Run, onlyPkg string) {
 				if madeHere {
 					continue
 				}
+			}
+			if suffix != "" && len(reqRoots) >= 4 && !onRequestPath[fn] && !onRequestPath[topFn(fn)] {
+				continue
 			}
 			n++
 			what := shortStruct(namedOf(fa.X.Type())) + "." + fieldOf(fa).Name() + suffix
